@@ -436,10 +436,11 @@ def evaluate__sum(self: XPathFunction, context: ta.ContextType = None) -> ta.One
 
     xsd_version = self.parser.xsd_version
     values: list[Any]
+    items = [x for x in self[0].select_flatten(context)]  # errors of the argument are not FORG0006
     try:
         values = [get_double(self.string_value(x), xsd_version)
                   if isinstance(x, XPathNode) else x
-                  for x in self[0].select_flatten(context)]
+                  for x in items]
     except (TypeError, ValueError):
         if self.parser.version == '1.0':
             return math.nan
